@@ -113,13 +113,26 @@ def scenarios(tier, seed):
     for ci, ccard in enumerate([dict(A=2, B=2, C=2, D=2, E=2), dict(A=3, B=2, C=3, D=2, E=2), dict(A=5, B=4, C=3, D=2, E=3)]):
         for symf in ([0, 2], [1, 4], [3, 0]) if ci < 2 else ([2], [3]):
             fixed = [i for i in range(5) if i not in symf]
-            for op, q, ev in [("calibrate", None, {}), ("query", ["A"], {"C": 1}), ("query", ["D", "B"], {}), ("query", ["E"], {"B": 0})]:
+            for op, q, ev in [("calibrate", None, {}), ("query", ["A"], {"C": 1}), ("query", ["D", "B"], {}), ("query", ["E"], {"B": 0}),
+                              ("query", ["C"], {"A": 1}), ("query", ["B"], {"D": 1}), ("query", ["A"], {"E": 1, "C": 0})]:
                 k += 1
                 if tier == "quick" and ci >= 1 and op == "calibrate":
                     continue
                 out.append(dict(family=f"bp/mn5/{op}", kind="mn", model="mcycle5", nodes=cyc_nodes, card=ccard, op=op, q=q, ev=ev, joint=True,
                                 states=C.STATE_STYLES[k % len(C.STATE_STYLES)], hashseed=k % nh, budget_s=50, amplify=False, scopes=cyc_scopes,
                                 fixed_factors=fixed, fixed_seed=k))
+    # 4-cycle with a tail: the default triangulation produces cliques holding variables none of their assigned factors mentions
+    t_nodes = ["A", "B", "C", "D", "E", "F"]
+    t_scopes = [["A", "B"], ["B", "C"], ["C", "D"], ["D", "A"], ["D", "E"], ["E", "F"]]
+    t_card = dict(A=2, B=2, C=2, D=2, E=2, F=2)
+    for st in ["str", "permint", "permrange", "tuple"]:
+        for hs in range(nh):
+            for q, ev in [(["A"], {"F": 1}), (["F"], {"A": 1}), (["B"], {"E": 0, "C": 1}), (["E"], {"B": 1})]:
+                k += 1
+                if tier == "quick" and (k + seed) % 2:
+                    continue
+                out.append(dict(family="bp/mn6/query", kind="mn", model="mcycle4tail", nodes=t_nodes, card=t_card, op="query", q=q, ev=ev, joint=True,
+                                states=st, hashseed=hs, budget_s=50, amplify=False, scopes=t_scopes, fixed_factors=[0, 1, 2, 3, 4], fixed_seed=k))
     for jname, (nodes, cliques, edges) in JTS.items():
         for card in C.card_options(nodes, tier)[:2]:
             add("jt", jname, nodes, card, dict(scopes=[list(c) for c in cliques], jt_edges=edges))
